@@ -177,13 +177,13 @@ def generate(rep, tier):
             got = fresh(r.printed, c)
             rep.part("Symbols_Gen(%s)" % c, programs=len(got))
             small += got
-        if len([b for b in small if b["src"] not in ALWAYS]) > 4000:
+        if len([b for b in small if b["src"] not in ALWAYS]) > 12000:
             # quick: a seed-chosen sample of the exhaustive small programs is replayed (all of them in thorough)
             r0 = rng("c13/bfs-sample")
             rep.part("generation", small_programs_generated=len(small),
-                     small_programs_replayed=4000 + len([b for b in small if b["src"] in ALWAYS]))
+                     small_programs_replayed=12000 + len([b for b in small if b["src"] in ALWAYS]))
             small = [b for b in small if b["src"] in ALWAYS] + \
-                r0.sample([b for b in small if b["src"] not in ALWAYS], 4000)
+                r0.sample([b for b in small if b["src"] not in ALWAYS], 12000)
         yield "small", small
     else:
         for c in cfgs:
@@ -195,7 +195,11 @@ def generate(rep, tier):
             rep.part("Symbols_Gen(%s)" % c, programs=len(got))
             yield c, got
     nsim = 800 if tier == "quick" else 3000
-    for cfg, share in (("Symbols_Sim.cfg", 0.45), ("Symbols_SimScope.cfg", 0.35), ("Symbols_SimStack.cfg", 0.2)):
+    # Symbols_SimTemp: long programs over temporary symbols only (nameless -, +, / at every depth of sight with data in
+    # between, named and composed ones) - the small exhaustive "temp" programs have no room for data between two
+    # definitions, so a reference bound to the wrong neighbour reads the same address there
+    for cfg, share in (("Symbols_Sim.cfg", 0.45), ("Symbols_SimScope.cfg", 0.35), ("Symbols_SimStack.cfg", 0.2),
+                       ("Symbols_SimTemp.cfg", 0.3)):
         with Phase("TLC: simulate long programs (%s)" % cfg):
             r = tlc.must(tlc.run("Symbols_Gen", cfg, workers=4, simulate=max(1, int(nsim * share) // 4), depth=45,
                                  deadlock=True, timeout=1700, mem="4g"), cfg)
